@@ -11,6 +11,7 @@
                             without tag and digest: an explicit version (semver.NewVersion
                             succeeds) is taken as it is, otherwise Tags + "no tags" error +
                             GetTagMatchingVersionOrConstraint (Index.tag_match).
+   internal/resolver/resolver.go  Resolve, the OCI branch (134-196) for one dependency.
    semver v3.3.0 version.go StrictNewVersion (68-136), String (227-239), Compare (403-431).
 
    Quirks of StrictNewVersion kept: no leading "v", exactly three numeric segments without
@@ -235,6 +236,26 @@ Section WithConstraints.
   Definition validate_reference (sort : list sversion -> list sversion)
              (pages : list (list string)) (ver : string) : vr_result :=
     validate_reference_tags (client_tags sort pages) ver.
+
+  (* Resolver.Resolve, one dependency kept in an OCI repository (internal/resolver/resolver.go
+     134-196; the surrounding loop is Index.resolve_loop): an unparsable range fails at once;
+     an explicit version stands for the whole tag list, otherwise Client.Tags; the first tag
+     NewVersion reads and the range accepts is locked (no identical-string pass here).
+     As the code is: [found] starts as true and only the index branch resets it, so in this
+     branch nothing is ever reported as missing — when no tag is in range the lock keeps the
+     initial Version, the text of the range itself (known finding K-C18-1). *)
+  Definition resolve_oci_tags (tags : list string) (ver : string) : dep_result :=
+    if negb (cvalid ver) then DFail
+    else
+      let vs := if is_valid_version ver then [ver] else tags in
+      match find (tag_sat sat ver) vs with
+      | Some t => DLocked t                               (* v.Original() *)
+      | None => DLocked ver                               (* found is still true: not missing *)
+      end.
+
+  Definition resolve_oci (sort : list sversion -> list sversion)
+             (pages : list (list string)) (ver : string) : dep_result :=
+    resolve_oci_tags (client_tags sort pages) ver.
 End WithConstraints.
 
 (* ---- specification vocabulary (used by the statements in Props/C18.v) ---- *)
